@@ -49,7 +49,7 @@ static void do_op(Cmd *c) {
         it_slot = zit_a = zit_b = -1; o("st=-");
     } else if (is_op(c, "zit_new")) {
         int k2 = (int)kv_u64(c, "o2", 1);
-        if (k2 < 0 || k2 >= NSLOT || !D[k] || !D[k2] || k == k2) { o("st=- nosession"); o_sep(); o("-"); return; }
+        if (k2 < 0 || k2 >= NSLOT || !D[k] || !D[k2]) { o("st=- nosession"); o_sep(); o("-"); return; }
         cc_deque_zip_iter_init(&zit, D[k], D[k2]); zit_a = k; zit_b = k2; o("st=-");
     } else if (!strncmp(c->op, "zit_", 4)) {
         if (zit_a < 0) { o("st=- nosession"); o_sep(); o("-"); return; }
@@ -61,7 +61,10 @@ static void do_op(Cmd *c) {
             st = cc_deque_zip_iter_add(&zit, PTR(a0), PTR(a1)); o_stat(st);
         } else if (is_op(c, "zit_remove")) {
             st = cc_deque_zip_iter_remove(&zit, noout ? NULL : &o1, noout ? NULL : &o2); o_stat(st);
-            if (st == CC_OK && !noout) o(" out=%llu out2=%llu", VAL(o1), VAL(o2));
+            if (st == CC_OK && !noout) {     /* an out parameter the library did not write prints as `-` */
+                if (o1 == PTR(777777)) o(" out=-"); else o(" out=%llu", VAL(o1));
+                if (o2 == PTR(777777)) o(" out2=-"); else o(" out2=%llu", VAL(o2));
+            }
         } else if (is_op(c, "zit_replace")) {
             st = cc_deque_zip_iter_replace(&zit, PTR(a0), PTR(a1), noout ? NULL : &o1, noout ? NULL : &o2); o_stat(st);
             if (st == CC_OK && !noout) o(" out=%llu out2=%llu", VAL(o1), VAL(o2));
